@@ -76,7 +76,7 @@ def run(A, R: Report, thorough: bool):
     R.explanation = ('Lockset analysis over FileCache entry points: `with FileLock(<file>.lock)` regions are structured, so "lock held at a call site" is decided from the '
                      'enclosing with-statements; the existence test guarding a load is found through CFG branch facts and must sit in the same critical section as the load. '
                      'Not decided: real interleavings, OS lock semantics.')
-    R.trusted = TRUSTED_BASE + ['filelock.FileLock is mutually exclusive between instances on one lock file, across threads and processes']
+    R.trusted = TRUSTED_BASE + ['filelock.FileLock is mutually exclusive between instances on one lock file, across threads and processes', 'numpy.load(mmap_mode=...) returns a view of the file, not a copy']
     R.assumptions = ['locks are taken with `with`; explicit acquire()/release() is reported as UNDECIDED']
     eps = cache_entry_points(A)
     R.require(len(eps) >= 2, f'anchor: expected FileCache.get and get_or_compute to call load_value/save_value, found {len(eps)} entry point(s)')
@@ -152,3 +152,10 @@ def run(A, R: Report, thorough: bool):
     for k, v in lock_terms.items():
         R.check(len(allt) == 1 and len(v) == 1, 'R15.3', k, key_of('lock-identity', sorted(v)), f'lock file = {sorted(v)}',
                 f'entry points lock different files: {sorted(allt)}', where=k)
+
+    from .c14 import check_load_handlers, check_numpy_entries
+    R.rule('R15.6', 'a load that fails (file left truncated by a killed writer) never makes get / get_or_compute fail: any exception but the key-mismatch error falls through to NO_VALUE / recompute', floor=2)
+    check_load_handlers(A, R, 'R15.6')
+    R.rule('R15.5', 'numpy entries are returned as copies of the file content, never as views of the file another caller rewrites in place', floor=1)
+    check_numpy_entries(A, R, 'R15.5')
+
